@@ -105,7 +105,8 @@ def run(ctx):
         # --- make_required
         keys = d1.props.get("keys")
         names = [] if keys is Nil else [k for k in keys if k is not Ellipsis]
-        for pick in ([None] + ([ctx.rnd.sample(names, ctx.rnd.randint(1, len(names)))] if names else []) + [["~missing~"]]):
+        for pick in ([None, [], (), set()] + ([ctx.rnd.sample(names, ctx.rnd.randint(1, len(names)))] if names else [])
+                     + ([tuple(names[:1]), set(names[-1:])] if names else []) + [["~missing~"]]):
             try:
                 r = make_required(d1, pick)
             except DeclarationError:
@@ -119,7 +120,7 @@ def run(ctx):
                         ctx.violation("make_required(d, keys) does not accept exactly the values of d with those keys present",
                                       d=repr(d1), keys=repr(pick), value=repr(v), result=repr(r))
             corr(lambda I: ["makerequired", encode.enc_schema(d1, I),
-                            "_" if pick is None else ["ks"] + [encode.enc_key(k, I) for k in pick]],
+                            "_" if pick is None else ["ks"] + [encode.enc_key(k, I) for k in list(pick)]],
                  lambda: make_required(d1, pick), ("required", d1, pick))
         # --- d[key] and iteration expose the declared members
         if keys is not Nil:
